@@ -454,7 +454,7 @@ func (g *Gen) callOf(f *Node, ar int, d int) *Node {
 	case ar < -1:
 		n = -1 - ar + g.R.Intn(3)
 	default:
-		n = g.R.Intn(3)
+		n = g.R.Intn(4)
 	}
 	if g.chance(5) {
 		n = g.R.Intn(3)
@@ -466,6 +466,20 @@ func (g *Gen) callOf(f *Node, ar int, d int) *Node {
 			t = g.valueTy()
 		}
 		args[i] = g.expr(t, d-1)
+	}
+	// the same bare variable on both sides of an argument that assigns to it
+	if n >= 3 && g.chance(20) {
+		v := g.pick([]string{"x", "y"})
+		args[0], args[n-1] = Var(v), Var(v)
+		if g.chance(50) {
+			args[1] = Set(v, g.expr(TInt, d-1))
+		} else {
+			args[1] = Def(v, g.expr(TInt, d-1))
+		}
+	}
+	// a constant array literal directly as an argument (a call site that may run several times)
+	if n >= 1 && g.chance(6) {
+		args[g.R.Intn(n)] = Arr(g.intLit(), g.intLit())
 	}
 	g.left--
 	return Call(f, args...)
